@@ -526,4 +526,18 @@ annotation of `*args` / `**kwargs` -/
 def DefArgs.Supported (d : DefArgs) : Bool :=
   d.WF && d.annAll (fun e => C13.Supported e && !isUnpackTop e)
 
+/-! ## the per-Checker caches the model accounts for -/
+
+/-- The containers of the signature route that can outlive one function, as accounted for by the
+model (`Core/AnnotRoutes.lean : CheckerSt`): `known_argspecs` is keyed by the function object,
+`generic_bases_cache` by the class (class-level facts, shared table), `_GET_OVERLOADS` is a constant
+list of overload getters, `_being_evaluated` is the recursion guard of one evaluation. Compared with
+the regenerated `Generated/ArgSpecCaches.lean` by `Props/C13.lean : argspec_caches_registered`: a
+new cache, or a cache stored under another key expression, breaks that obligation. -/
+def registeredCaches : List (String × String × String × String) := [
+  ("pyanalyze/arg_spec.py", "<module>._GET_OVERLOADS", "list", ""),
+  ("pyanalyze/arg_spec.py", "ArgSpecCache.generic_bases_cache", "dict", "typ"),
+  ("pyanalyze/arg_spec.py", "ArgSpecCache.known_argspecs", "dict", "obj"),
+  ("pyanalyze/annotations.py", "Context._being_evaluated", "set", "")]
+
 end Pya.C13
